@@ -16,6 +16,7 @@ package generic
 
 import (
 	"errors"
+	"strings"
 
 	"github.com/echovault/sugardb/internal"
 	"github.com/echovault/sugardb/internal/constants"
@@ -25,9 +26,17 @@ func setKeyFunc(cmd []string) (internal.KeyExtractionFuncResult, error) {
 	if len(cmd) < 3 || len(cmd) > 7 {
 		return internal.KeyExtractionFuncResult{}, errors.New(constants.WrongArgsResponse)
 	}
+	// With the GET option the command also returns the old value of the key: it reads the key too.
+	readKeys := make([]string, 0)
+	for _, option := range cmd[3:] {
+		if strings.EqualFold(option, "get") {
+			readKeys = append(readKeys, cmd[1])
+			break
+		}
+	}
 	return internal.KeyExtractionFuncResult{
 		Channels:  make([]string, 0),
-		ReadKeys:  make([]string, 0),
+		ReadKeys:  readKeys,
 		WriteKeys: cmd[1:2],
 	}, nil
 }
